@@ -146,6 +146,12 @@ pub enum COp {
     AvMax,
     AsMax,
     AsDeclined,
+    /// AddVersion that starts while another connection holds the write lock for the first 70
+    /// attempts to take it (longer than one busy time-out, shorter than two). A server that
+    /// refuses it with "database is locked" leaves nothing; one that goes on must still apply it
+    /// completely or not at all at every crash point. Last request of its history, counted as
+    /// never acknowledged. Needs `HoldConnection` before it.
+    AvAfterLockWait,
     /// not a request: from here on another connection to the database stays open (an overlapping
     /// request that has opened its connection, another worker, another instance), so that closing
     /// a request's own connection no longer checkpoints
@@ -158,6 +164,7 @@ impl COp {
             COp::AvNewClient => "AddVersion(new client B)",
             COp::AvSmall => "AddVersion(A, 20B)",
             COp::Av10k => "AddVersion(A, 10KB)",
+            COp::AvAfterLockWait => "AddVersion(A, 20B) after the write lock was busy for 70 attempts",
             COp::Av1m => "AddVersion(A, 1MB)",
             COp::Av100k => "AddVersion(A, 100KB)",
             COp::AsSmall => "AddSnapshot(A, latest, 20B)",
@@ -170,7 +177,7 @@ impl COp {
         }
     }
     pub fn parse(s: &str) -> Option<COp> {
-        [COp::AvNewClient, COp::AvSmall, COp::Av10k, COp::Av1m, COp::Av100k, COp::AsSmall, COp::As50k, COp::As2m, COp::AvMax, COp::AsMax, COp::AsDeclined, COp::HoldConnection].into_iter().find(|c| c.name() == s)
+        [COp::AvNewClient, COp::AvSmall, COp::Av10k, COp::Av1m, COp::Av100k, COp::AsSmall, COp::As50k, COp::As2m, COp::AvMax, COp::AsMax, COp::AsDeclined, COp::HoldConnection, COp::AvAfterLockWait].into_iter().find(|c| c.name() == s)
     }
     pub fn all() -> Vec<COp> {
         // (HoldConnection is added by `histories`, it is not a request)
@@ -223,7 +230,7 @@ pub fn record(hist: &[COp], seed: u64) -> Result<Recorded, String> {
                 let lb = model.client(1).map(|c| c.latest()).unwrap_or(NIL);
                 SymOp::AddVersion { c: 1, parent: lb, data: body(20, k as u8) }
             }
-            COp::AvSmall => SymOp::AddVersion { c: 0, parent: latest_a, data: body(20, k as u8) },
+            COp::AvSmall | COp::AvAfterLockWait => SymOp::AddVersion { c: 0, parent: latest_a, data: body(20, k as u8) },
             COp::Av10k => SymOp::AddVersion { c: 0, parent: latest_a, data: body(10_000, k as u8) },
             COp::Av1m => SymOp::AddVersion { c: 0, parent: latest_a, data: body(1_000_000, k as u8) },
             COp::Av100k => SymOp::AddVersion { c: 0, parent: latest_a, data: body(100_000, k as u8) },
@@ -237,6 +244,19 @@ pub fn record(hist: &[COp], seed: u64) -> Result<Recorded, String> {
         };
         rec.marker(&format!("begin {k}"));
         let new_sid = model.next_sid;
+        if *op == COp::AvAfterLockWait {
+            // the request as it is recorded; whether the server refuses it or goes on, it is never
+            // marked acknowledged: from here on every crash point allows "applied" or "absent"
+            rec.busy_left.store(70, std::sync::atomic::Ordering::SeqCst);
+            let _ = s.apply(&sop, new_sid);
+            rec.busy_left.store(0, std::sync::atomic::Ordering::SeqCst);
+            if let SymOp::AddVersion { c, parent, data } = &sop {
+                let _ = model.add_version(*c, *parent, data, true);
+            }
+            models.push(model.clone());
+            ops.push(sop);
+            break;
+        }
         let r = s.apply(&sop, new_sid);
         rec.marker(&format!("ack {k}"));
         // advance the model
@@ -737,6 +757,8 @@ pub fn histories(quick: bool) -> Vec<Vec<COp>> {
             vec![COp::AvSmall, COp::HoldConnection, COp::Av10k, COp::AvSmall],
             // a large snapshot replacing an existing one
             vec![COp::AvSmall, COp::AsSmall, COp::AvSmall, COp::As2m],
+            // a request that had to wait for the write lock
+            vec![COp::HoldConnection, COp::AvSmall, COp::AvAfterLockWait],
         ];
     }
     let all = COp::all();
@@ -771,6 +793,10 @@ pub fn histories(quick: bool) -> Vec<Vec<COp>> {
     out.push(vec![COp::AvSmall, COp::AsSmall, COp::AvSmall, COp::As2m]);
     out.push(vec![COp::AvSmall, COp::As2m, COp::AvSmall, COp::As2m]);
     out.push(vec![COp::HoldConnection, COp::AvSmall, COp::AsSmall, COp::AvSmall, COp::As2m]);
+    // requests that had to wait for the write lock
+    out.push(vec![COp::HoldConnection, COp::AvSmall, COp::AvAfterLockWait]);
+    out.push(vec![COp::HoldConnection, COp::AvSmall, COp::AsSmall, COp::AvAfterLockWait]);
+    out.push(vec![COp::HoldConnection, COp::AvAfterLockWait]);
     // a few length-4 histories mixing everything
     out.push(vec![COp::AvNewClient, COp::Av10k, COp::As50k, COp::AvNewClient]);
     out.push(vec![COp::AvSmall, COp::AsSmall, COp::Av1m, COp::AsSmall]);
